@@ -50,7 +50,7 @@ var codecs = []codec{
 	},
 	{name: "utf16", unicode: true, format: strz.Utf16Format[[]byte], formatS: strz.Utf16Format[string], formatStr: strz.Utf16FormatToString[[]byte], parse: strz.Utf16Parse, parseStr: strz.Utf16ParseToString[string], parseStrB: strz.Utf16ParseToString[[]byte],
 		shape:  regexp.MustCompile(`^(\\u[0-9A-F]{4})*$`),
-		tokens: []string{`\`, `\\`, `\u`, `\u00`, `\u004`, `\`+`u0041`, `\uD83D`, `\uDE00`, `\uD800`, `\uDBFF`, `\uDC00`, `\uDFFF`, `\`+`uFFFD`, `\`+`uFFFF`, `\ud83d`, `\ude00`, `\uG041`, `\u004G`, `\U0041`, `u`, `0041`, `D`, "\xff", `\uD8\`, `\uD83D\`, `\`+`u00E9`, `\`+`u65E5`, `e`},
+		tokens: []string{`\`, `\\`, `\u`, `\u00`, `\u004`, `\` + `u0041`, `\uD83D`, `\uDE00`, `\uD800`, `\uDBFF`, `\uDC00`, `\uDFFF`, `\` + `uFFFD`, `\` + `uFFFF`, `\ud83d`, `\ude00`, `\uG041`, `\u004G`, `\U0041`, `u`, `0041`, `D`, "\xff", `\uD8\`, `\uD83D\`, `\` + `u00E9`, `\` + `u65E5`, `e`},
 	},
 }
 
@@ -270,8 +270,8 @@ func TestExhaustive(t *testing.T) {
 
 type embCase struct {
 	Codec int
-	Lits  []g.B  // len = len(Vals)+1, backslash-free
-	Vals  []int  // byte value / scalar value
+	Lits  []g.B // len = len(Vals)+1, backslash-free
+	Vals  []int // byte value / scalar value
 }
 
 func genEmb(t *rapid.T) embCase {
